@@ -24,8 +24,8 @@ META = {
                  "commit-order model checked by TLC predicts the failing set",
 }
 
-MEM_FIELDS = ["sch", "acp", "dn", "oa"]
-PROBE = {"create": "ent", "modify": "ent", "delete": "ent", "schema": "sch", "schemaidx": "sch", "acp": "acp",
+MEM_FIELDS = ["sch", "acp", "dn", "oa", "ruv", "ixm"]
+PROBE = {"create": "ruv", "modify": "ent", "delete": "ent", "schema": "sch", "schemaidx": "ixm", "acp": "acp",
          "oauth2": "oa", "domain": "dn"}
 DISK = ["ent", "sche", "acpe", "oae", "dne"]
 
@@ -33,7 +33,8 @@ DISK = ["ent", "sche", "acpe", "oae", "dne"]
 def signatures(r):
     """Per differing field: the minimal description of what a failed transaction left behind."""
     pre, live, reopen = r["pre"], r["live"], r["reopen"]
-    disk_same = all(reopen[f] == pre[f] for f in DISK)
+    base = r["post2"] if r.get("post2") else pre   # the reopened file contains the follow-up transaction
+    disk_same = all(reopen[f] == base[f] for f in DISK)
     out = []
     for f in sorted(pre):
         if live[f] != pre[f]:
@@ -41,12 +42,18 @@ def signatures(r):
             out.append((f"{cls} field={f} phase={r['phase']} pt={r['point']} disk={'pre' if disk_same else 'changed'}",
                         f"kind={r['kind']} k={r['k']}: after {r['res']} at storage point {r['point']} ({r['phase']} phase) a fresh "
                         f"read transaction sees {f}={live[f]!r}, it was {pre[f]!r} when the transaction began"))
+    if r.get("live2") and r.get("post2") and r["live2"] != r["post2"]:
+        for f in sorted(r["post2"]):
+            if r["live2"].get(f) != r["post2"][f] and live[f] == pre[f]:
+                out.append((f"later-differs field={f} phase={r['phase']} pt={r['point']}",
+                            f"kind={r['kind']} k={r['k']}: after the failed transaction AND one following successful transaction a "
+                            f"reader sees {f}={r['live2'].get(f)!r}; the follow-up alone gives {r['post2'][f]!r}"))
     if not disk_same:
-        d = [f for f in DISK if reopen[f] != pre[f]]
+        d = [f for f in DISK if reopen[f] != base[f]]
         out.append((f"disk-changed fields={','.join(d)} phase={r['phase']} pt={r['point']}",
                     f"kind={r['kind']} k={r['k']}: the reopened database differs in {d} after a transaction that reported {r['res']}"))
-    if r.get("rf") == 1 and r["reopenf"] != pre:
-        d = [f for f in sorted(pre) if r["reopenf"].get(f) != pre[f]]
+    if r.get("rf") == 1 and any(r["reopenf"].get(f) != base[f] for f in base if f != "ruv"):
+        d = [f for f in sorted(base) if f != "ruv" and r["reopenf"].get(f) != base[f]]
         out.append((f"reopened-differs fields={','.join(d)} phase={r['phase']} pt={r['point']}",
                     f"kind={r['kind']} k={r['k']}: the reopened and re-initialised server differs in {d}"))
     return out
@@ -66,7 +73,7 @@ def run(tier, replay):
     if replay:
         lib.kverif("txn", ["c04", "--out", obs, "--replay", replay, "--db", db], timeout=3000)
     elif quick:
-        lib.kverif("txn", ["c04", "--out", obs, "--db", db, "--kinds", "create,schema,acp,oauth2,domain",
+        lib.kverif("txn", ["c04", "--out", obs, "--db", db, "--kinds", "create,schemaidx,acp,oauth2,domain",
                            "--stride", 500], timeout=3000)
     else:
         lib.kverif("txn", ["c04", "--out", obs, "--db", db, "--kinds",
@@ -92,7 +99,8 @@ def run(tier, replay):
             R.violation(sig, desc, [lines[ln]])
         for f in MEM_FIELDS:
             if r["live"][f] != r["pre"][f]:
-                observed_hyp.add((r["kind"], step_of.get(r["point"], "names"), comp_of[f]))
+                if f in comp_of:
+                    observed_hyp.add((r["kind"], step_of.get(r["point"], "names"), comp_of[f]))
     classes = {}
     for r in recs:
         diff = ",".join(f for f in sorted(r["pre"]) if r["live"][f] != r["pre"][f])
